@@ -923,7 +923,8 @@ class Evaluator:
             if any(isinstance(a, (Obj, ClassRef)) for a in args) and f[1] not in self.externals.values():
                 raise Undecided("builtin on object")
             # a function of the evaluated program handed to a library function (key=, accumulate(xs, f), re.sub(p, f, s)) is called back through the evaluator
-            wrap = lambda v_: (lambda *a_: self._apply(v_, list(a_), {}, e)) if isinstance(v_, tuple) and v_ and v_[0] in ("closure", "func", "method") else v_
+            wrap = lambda v_: (lambda *a_: self._apply(v_, list(a_), {}, e)) if isinstance(v_, tuple) and v_ and v_[0] in ("closure", "func", "method") else (
+                v_[1] if isinstance(v_, tuple) and len(v_) == 2 and v_[0] == "pyfunc" else v_)
             args = [wrap(a_) for a_ in args]
             kw = {k_: wrap(v_) for k_, v_ in kw.items()}
             try:
